@@ -497,7 +497,7 @@ int c12_batch(const Args &a) {
                 st.faults_wr += r.wr_faults;
                 st.faults_rd += r.rd_faults; st.faults_sys += r.sys_faults;
                 for (int lb = 0; g_libc_static_names[lb]; lb++) {
-                    if (!(r.libc_static & (1u << lb))) continue;
+                    if (!(r.libc_static & (1ull << lb))) continue;
                     std::string key = std::string("libc-static:") + g_fn[op.fn].name + ":" + g_libc_static_names[lb];
                     uint64_t &cnt = st.viol_count[key];
                     if (cnt++ >= (uint64_t)per_key_cap) continue;
@@ -850,7 +850,7 @@ int c12_replay(const std::string &path) {
         for (size_t t = 0; t < s.res.size(); t++)
             for (size_t o = 0; o < s.res[t].size(); o++)
                 for (int lb = 0; g_libc_static_names[lb]; lb++)
-                    if ((s.res[t][o].libc_static & (1u << lb)) &&
+                    if ((s.res[t][o].libc_static & (1ull << lb)) &&
                         std::string("libc-static:") + g_fn[plan.tasks[t].ops[o].fn].name + ":" + g_libc_static_names[lb] == key) {
                         printf("REPRODUCED property=C12 class=libc-static key=%s\n", key.c_str());
                         return 1;
